@@ -170,6 +170,32 @@ pub fn thrift_docs() -> Vec<SDoc> {
                 name: "Camel".into(),
                 kind: DeclKind::Struct(vec![f(1, "userName", Default, STy::String), f(2, "retryCount", Optional, STy::I32), f(3, "plain", Default, STy::I32), f(4, "HTTPCode", Default, STy::I16)]),
             },
+            // every default is the type's zero: the struct must still say so for optional members
+            Decl {
+                name: "ZeroDefaults".into(),
+                kind: DeclKind::Struct(vec![
+                    fd(1, "a", Optional, STy::I32, Lit::Int(0)),
+                    fd(2, "b", Optional, STy::Bool, Lit::Bool(false)),
+                    fd(3, "s", Default, STy::String, Lit::Str("".into())),
+                    fd(4, "d", Optional, STy::Double, Lit::Int(0)),
+                    fd(5, "r", Required, STy::I64, Lit::Int(0)),
+                    fd(6, "bi", Optional, STy::Binary, Lit::Str("".into())),
+                    fd(7, "bz", Default, STy::Bool, Lit::Int(0)),
+                ]),
+            },
+            // doubles written with exponents (the IDL value is the correctly rounded one)
+            Decl {
+                name: "Physics".into(),
+                kind: DeclKind::Struct(vec![
+                    fd(1, "avogadro", Default, STy::Double, Lit::Double("6.02e23".into())),
+                    fd(2, "charge", Optional, STy::Double, Lit::Double("1.6e-19".into())),
+                    fd(3, "planck", Default, STy::Double, Lit::Double("6.62e-34".into())),
+                    fd(4, "big", Optional, STy::Double, Lit::Double("1e308".into())),
+                    fd(5, "milli", Default, STy::Double, Lit::Double("2.5e-3".into())),
+                    fd(6, "lights", Default, list(STy::Double), Lit::List(vec![Lit::Double("2.99792458e8".into()), Lit::Double("1.e5".into())])),
+                    fd(7, "by_exp", Optional, map(STy::String, STy::Double), Lit::Map(vec![(Lit::Str("h".into()), Lit::Double("6.62607015e-34".into()))])),
+                ]),
+            },
             Decl {
                 name: "Defaults".into(),
                 kind: DeclKind::Struct(vec![
